@@ -339,6 +339,12 @@ fn run_program_property(cli: &Cli, prop: Prop) -> ! {
     if prop != Prop::C02 {
         structure::run(&cfg, &report, cli.tier);
     }
+    if prop == Prop::C13 && cli.replay.is_none() {
+        // the chain-level part: v1 receive executions interrupted at invoke / upgrade and resumed
+        // (engine mc-host, its resume layer), merged into this report
+        let j = mc_core::run_embedded("mc-host", "C13", cli.tier);
+        report.merge_embedded("mc-host", &j);
+    }
     report.state(states);
     report.set_technique("bounded exhaustive enumeration (stateless DFS over reference-validator states) of Wasm function bodies, each executed on the real engine and compared with a reference interpreter");
     report.set_rule("every well-typed function body of at most max_body_len instructions over the listed alphabets, in a fixed module template, run on every argument tuple and build; a body is non-trivial if its reference outcomes over the argument tuples are not all equal");
